@@ -47,6 +47,7 @@ GInit == Init /\ calls = <<>> /\ replies = <<>> /\ rets = <<>>
 GNext ==
   /\ \/ Open /\ UNCHANGED <<calls, replies>>
      \/ OpenFailed /\ UNCHANGED <<calls, replies>>
+     \/ Failed /\ UNCHANGED <<calls, replies>>
      \/ \E k \in KS : Read(k) /\ calls' = Append(calls, [op |-> "read", k |-> k]) /\ UNCHANGED replies
      \/ Seek0 /\ calls' = Append(calls, [op |-> "seek0", k |-> 0]) /\ UNCHANGED replies
      \/ Tell /\ calls' = Append(calls, [op |-> "tell", k |-> 0]) /\ UNCHANGED replies
